@@ -3,6 +3,7 @@
 // (C08: exactly the transitive closure through pointer / array / binding-array bases and struct members)
 // and its cost (C20: a type is expanded only when the seen set strictly grew).
 #![feature(allocator_api)]
+#![recursion_limit = "4096"]
 #![allow(unused_imports, unused_variables, unused_mut, dead_code, unused_braces, unused_parens)]
 use vstd::prelude::*;
 use vstd::std_specs::iter::IteratorSpec;
@@ -12,158 +13,11 @@ extern crate indexmap;
 extern crate rustc_hash;
 use naga::{Handle, Type};
 #[path = "../../spec/lib/prelude.rs"] pub mod prelude;
+#[path = "../../spec/lib/model_reach.rs"] pub mod model_reach;
 use prelude::*;
+use model_reach::*;
 
 verus! {
-
-// ---------------- model: the "directly contains" relation on type handles, from the statement ----------------
-// (members, arrays, runtime arrays; pointers and binding arrays as naga has them)
-pub open spec fn ntypes(m: &naga::Module) -> int { uarena_seq(&m.types).len() as int }
-pub open spec fn ty_at(m: &naga::Module, a: int) -> naga::Type { uarena_seq(&m.types)[a] }
-pub open spec fn edge(m: &naga::Module, a: int, b: int) -> bool {
-    0 <= a < ntypes(m) && match ty_at(m, a).inner {
-        naga::TypeInner::Pointer { base, .. } => handle_index(base) == b,
-        naga::TypeInner::Array { base, .. } => handle_index(base) == b,
-        naga::TypeInner::BindingArray { base, .. } => handle_index(base) == b,
-        naga::TypeInner::Struct { members, .. } => exists|k: int| 0 <= k < members@.len() && handle_index(#[trigger] members@[k].ty) == b,
-        _ => false,
-    }
-}
-// naga builds the UniqueArena bottom-up: a type only refers to types with smaller handles
-pub open spec fn types_wf(m: &naga::Module) -> bool {
-    forall|a: int, b: int| #[trigger] edge(m, a, b) ==> 0 <= b < a
-}
-// reachability: reflexive-transitive closure of edge (well-founded by types_wf)
-pub open spec fn reach(m: &naga::Module, a: int, b: int) -> bool
-    decreases a
-{
-    0 <= a < ntypes(m) && (a == b || exists|c: int| 0 <= c < a && #[trigger] edge(m, a, c) && reach(m, c, b))
-}
-
-// ---------------- seen set ----------------
-pub open spec fn seen(v: Set<naga::Handle<naga::Type>>, d: int) -> bool { v.contains(mk_handle(d)) }
-pub open spec fn smono(a: Set<naga::Handle<naga::Type>>, b: Set<naga::Handle<naga::Type>>) -> bool { forall|d: int| #[trigger] seen(a, d) ==> seen(b, d) }
-// every seen type with index <= t has all the types it directly contains seen as well
-pub open spec fn closed_upto(m: &naga::Module, v: Set<naga::Handle<naga::Type>>, t: int) -> bool {
-    forall|a: int, b: int| seen(v, a) && a <= t && #[trigger] edge(m, a, b) ==> seen(v, b)
-}
-pub open spec fn closed(m: &naga::Module, v: Set<naga::Handle<naga::Type>>) -> bool {
-    forall|a: int, b: int| seen(v, a) && #[trigger] edge(m, a, b) ==> seen(v, b)
-}
-pub open spec fn new_closed(m: &naga::Module, v0: Set<naga::Handle<naga::Type>>, v1: Set<naga::Handle<naga::Type>>) -> bool {
-    forall|a: int, b: int| seen(v1, a) && !seen(v0, a) && #[trigger] edge(m, a, b) ==> seen(v1, b)
-}
-pub open spec fn new_reached(m: &naga::Module, v0: Set<naga::Handle<naga::Type>>, v1: Set<naga::Handle<naga::Type>>, t: int) -> bool {
-    forall|d: int| #[trigger] seen(v1, d) && !seen(v0, d) ==> reach(m, t, d)
-}
-pub open spec fn all_reached(m: &naga::Module, v1: Set<naga::Handle<naga::Type>>, t: int) -> bool {
-    forall|d: int| #[trigger] reach(m, t, d) ==> seen(v1, d)
-}
-pub open spec fn in_arena(m: &naga::Module, v: Set<naga::Handle<naga::Type>>) -> bool {
-    forall|h: naga::Handle<naga::Type>| #[trigger] v.contains(h) ==> 0 <= handle_index(h) < ntypes(m)
-}
-
-// ---------------- cost measure: number of type handles not yet seen ----------------
-pub open spec fn sset(m: &naga::Module, v: Set<naga::Handle<naga::Type>>) -> Set<int> {
-    Set::<int>::range(0, ntypes(m)).filter(|d: int| seen(v, d))
-}
-pub open spec fn unseen(m: &naga::Module, v: Set<naga::Handle<naga::Type>>) -> nat { (ntypes(m) - sset(m, v).len()) as nat }
-pub proof fn lemma_sset_bounds(m: &naga::Module, v: Set<naga::Handle<naga::Type>>)
-    ensures sset(m, v).finite(), sset(m, v).len() <= ntypes(m),
-{
-    let r = Set::<int>::range(0, ntypes(m));
-    r.lemma_len_filter(|d: int| seen(v, d));
-    assert(r.len() == ntypes(m));
-}
-pub proof fn lemma_unseen_mono(m: &naga::Module, v: Set<naga::Handle<naga::Type>>, v2: Set<naga::Handle<naga::Type>>)
-    requires smono(v, v2),
-    ensures unseen(m, v2) <= unseen(m, v),
-{
-    lemma_sset_bounds(m, v); lemma_sset_bounds(m, v2);
-    assert(sset(m, v).subset_of(sset(m, v2)));
-    vstd::set_lib::lemma_len_subset(sset(m, v), sset(m, v2));
-}
-pub proof fn lemma_unseen_insert(m: &naga::Module, v: Set<naga::Handle<naga::Type>>, c: int)
-    requires 0 <= c < ntypes(m), !seen(v, c),
-    ensures unseen(m, v.insert(mk_handle(c))) < unseen(m, v),
-{
-    let v2 = v.insert(mk_handle::<naga::Type>(c));
-    lemma_sset_bounds(m, v); lemma_sset_bounds(m, v2);
-    assert forall|d: int| sset(m, v2).contains(d) == sset(m, v).insert(c).contains(d) by {
-        axiom_mk_handle_idx::<naga::Type>(d);
-        axiom_mk_handle_idx::<naga::Type>(c);
-    }
-    assert(sset(m, v2) =~= sset(m, v).insert(c));
-}
-
-// a seen type whose small part of the set is closed has everything it reaches seen
-pub proof fn lemma_closed_reach(m: &naga::Module, v: Set<naga::Handle<naga::Type>>, t: int, a: int, d: int)
-    requires types_wf(m), closed_upto(m, v, t), seen(v, a), a <= t, reach(m, a, d),
-    ensures seen(v, d),
-    decreases a,
-{
-    if a != d {
-        let c = choose|c: int| 0 <= c < a && #[trigger] edge(m, a, c) && reach(m, c, d);
-        lemma_closed_reach(m, v, t, c, d);
-    }
-}
-
-
-// what is needed to descend into child c of the in-progress type t
-pub proof fn lemma_child_pre(m: &naga::Module, v0: Set<naga::Handle<naga::Type>>, vk: Set<naga::Handle<naga::Type>>, t: int, c: int)
-    requires types_wf(m), edge(m, t, c), closed_upto(m, v0, t), smono(v0, vk), !seen(v0, t),
-        forall|a: int, b: int| seen(vk, a) && !seen(v0, a) && a != t && #[trigger] edge(m, a, b) ==> seen(vk, b),
-    ensures 0 <= c < t, closed_upto(m, vk, c),
-{
-    assert forall|a: int, b: int| seen(vk, a) && a <= c && #[trigger] edge(m, a, b) implies seen(vk, b) by {
-        if seen(v0, a) { assert(seen(v0, b)); }
-    }
-}
-// bookkeeping after the recursive call for child c
-pub proof fn lemma_child_post(m: &naga::Module, v0: Set<naga::Handle<naga::Type>>, vk: Set<naga::Handle<naga::Type>>, v2: Set<naga::Handle<naga::Type>>, t: int, c: int)
-    requires types_wf(m), 0 <= t < ntypes(m), edge(m, t, c), smono(v0, vk), smono(vk, v2),
-        forall|d: int| #[trigger] seen(vk, d) && !seen(v0, d) ==> reach(m, t, d),
-        forall|a: int, b: int| seen(vk, a) && !seen(v0, a) && a != t && #[trigger] edge(m, a, b) ==> seen(vk, b),
-        new_reached(m, vk, v2, c), new_closed(m, vk, v2),
-    ensures smono(v0, v2),
-        forall|d: int| #[trigger] seen(v2, d) && !seen(v0, d) ==> reach(m, t, d),
-        forall|a: int, b: int| seen(v2, a) && !seen(v0, a) && a != t && #[trigger] edge(m, a, b) ==> seen(v2, b),
-{
-    assert forall|d: int| #[trigger] seen(v2, d) && !seen(v0, d) implies reach(m, t, d) by {
-        if !seen(vk, d) { assert(reach(m, c, d)); assert(0 <= c < t); }
-    }
-    assert forall|a: int, b: int| seen(v2, a) && !seen(v0, a) && a != t && #[trigger] edge(m, a, b) implies seen(v2, b) by {
-        if seen(vk, a) { assert(seen(vk, b)); }
-    }
-}
-// a type with a single directly contained type (pointer, array, binding array)
-pub open spec fn only_child(m: &naga::Module, t: int, c: int) -> bool { forall|b: int| #[trigger] edge(m, t, b) <==> b == c }
-pub proof fn lemma_one_child_pre(m: &naga::Module, v0: Set<naga::Handle<naga::Type>>, v1: Set<naga::Handle<naga::Type>>, t: int, c: int)
-    requires types_wf(m), 0 <= t < ntypes(m), edge(m, t, c), closed_upto(m, v0, t), !seen(v0, t), smono(v0, v1),
-        forall|d: int| seen(v1, d) ==> seen(v0, d) || d == t,
-    ensures 0 <= c < t, closed_upto(m, v1, c),
-{
-    assert forall|a: int, b: int| seen(v1, a) && a <= c && #[trigger] edge(m, a, b) implies seen(v1, b) by {
-        assert(seen(v0, a)); assert(seen(v0, b));
-    }
-}
-pub proof fn lemma_one_child_post(m: &naga::Module, v0: Set<naga::Handle<naga::Type>>, v1: Set<naga::Handle<naga::Type>>, v2: Set<naga::Handle<naga::Type>>, t: int, c: int)
-    requires types_wf(m), 0 <= t < ntypes(m), only_child(m, t, c), !seen(v0, t), seen(v1, t), smono(v0, v1), smono(v1, v2),
-        forall|d: int| seen(v1, d) ==> seen(v0, d) || d == t,
-        all_reached(m, v2, c), new_reached(m, v1, v2, c), new_closed(m, v1, v2),
-    ensures smono(v0, v2), all_reached(m, v2, t), new_reached(m, v0, v2, t), new_closed(m, v0, v2),
-{
-    assert(edge(m, t, c));
-    assert forall|d: int| #[trigger] reach(m, t, d) implies seen(v2, d) by {
-        if d != t { let c2 = choose|c2: int| 0 <= c2 < t && #[trigger] edge(m, t, c2) && reach(m, c2, d); assert(c2 == c); }
-    }
-    assert forall|d: int| #[trigger] seen(v2, d) && !seen(v0, d) implies reach(m, t, d) by {
-        if !seen(v1, d) { assert(reach(m, c, d)); }
-    }
-    assert forall|a: int, b: int| seen(v2, a) && !seen(v0, a) && #[trigger] edge(m, a, b) implies seen(v2, b) by {
-        if seen(v1, a) { assert(a == t); assert(b == c); assert(reach(m, c, c)); }
-    }
-}
 
 //@fn structs.rs::add_types_recursive
 fn add_types_recursive(
